@@ -2,6 +2,7 @@ import LenaModel.Model.C12
 import LenaModel.Lemmas.C12
 import LenaModel.Lemmas.C12Hist
 import LenaModel.Lemmas.C12Graph
+import LenaModel.Lemmas.C12Csv
 /-! # C12 — property theorems (histogram and graph arithmetic, scaling and conversions keep every cell)
 
 All theorems are about the executable model `LenaModel/Model/C12.lean` (+ `NArr.lean`) over exact rationals, for
@@ -11,10 +12,6 @@ checks them numerically on the real code. -/
 
 namespace Lena.C12
 open Lena Lena.NArr
-
-/-- a histogram whose bins have the shape of its edges (what `histogram.__init__` builds from `initial_value`,
-and what `fill` keeps) -/
-def Hist.WF (h : Hist) : Prop := h.edges.axes ≠ [] ∧ HasShape h.nbins h.bins
 
 /-- the example histogram of the non-vacuity checks: edges `[0, 1, 3]`, bins `[1, 2]`, one value out of range -/
 def exHist : Hist := { edges := .flat [0, 1, 3], bins := .node [.leaf 1, .leaf 2], nOut := 1, scale := none }
@@ -196,46 +193,6 @@ theorem get_nevents_spec (h : Hist) :
 "histogram.add returns the cell-wise a + w*b without modifying its operands and only for equal edges".  (Operands
 are values here; that the real objects are not modified is checked by the harness.) -/
 
-/-- the weighted bins of the other histogram in `add`: `md_map(lambda val: val*weight, other.bins)` unless the
-weight is 1 -/
-def weightedBins (b : Hist) (w : Q) : Except Err (NArr Q) :=
-  if w ≠ 1 then mdMap (fun val => val * w) b.bins else pure b.bins
-
-theorem weightedBins_zip (a b : Hist) (w : Q) (ob nb : NArr Q) (ho : weightedBins b w = .ok ob)
-    (hnb : mdMap2 (· + ·) a.bins ob = .ok nb) : nb = zipWith (fun x y => x + y * w) a.bins b.bins := by
-  have h2 := mdMap2_eq_zipWith _ _ _ _ hnb
-  unfold weightedBins at ho
-  by_cases hw : w = 1
-  · simp [hw, pure, Except.pure] at ho
-    subst ho
-    subst hw
-    simpa using h2
-  · simp [hw] at ho
-    have := mdMap_eq_map _ _ _ ho
-    subst this
-    rw [h2, zipWith_map_right]
-
-/-- what `histogram(edges, bins=b)` stores -/
-theorem mkHist_some (e : Edges) (b : NArr Q) (i : Q) (nh : Hist) (hk : mkHist e (some b) i = .ok nh) :
-    nh.edges = e ∧ nh.bins = b ∧ nh.scale = none ∧ nh.nOut = 0 := by
-  unfold mkHist at hk
-  cases hce : checkEdgesIncreasing e with
-  | error e => simp [hce, bind, Except.bind] at hk
-  | ok u =>
-    simp only [hce, bind, Except.bind] at hk
-    split at hk
-    · simp at hk
-    · simp at hk
-    · cases hl : lenBins b with
-      | error e => simp [hl] at hk
-      | ok n =>
-        simp only [hl] at hk
-        split at hk
-        · simp at hk
-        · simp [pure, Except.pure] at hk
-          subst hk
-          exact ⟨rfl, rfl, rfl, rfl⟩
-
 /-- `a.add(b, w)`, when it returns `c`: the numbers of bins agree and the edges are close within the given
 tolerances; `c` has the edges of `a`, its bins are the cell-wise `a + b*w` (for arrays of any shape), its
 `n_out_of_range` is `a.n_out_of_range + b.n_out_of_range*w`, its scale is not computed.  All inputs. -/
@@ -313,48 +270,6 @@ example : add exHist { exHist with edges := .flat [0, 1, 4] } 1 ⟨1 / 100000000
 example : add exHist exHist2 1 ⟨1 / 1000000000, 0⟩ = .error .lenaValueError :=
   add_rejects_nbins _ _ _ _ (by decide +kernel)
 
-/-- with zero tolerances two numbers are close only when they are equal -/
-theorem isclose1_zero (x y : Q) : isclose1 ⟨0, 0⟩ x y = true ↔ x = y := by
-  simp only [isclose1, Rat.abs]
-  constructor
-  · intro h; grind
-  · rintro rfl; grind
-
-theorem iscloseList_zero : ∀ (a b : List Q), a.length = b.length → iscloseList ⟨0, 0⟩ a b = .ok true → a = b
-  | [], [], _, _ => rfl
-  | [], _ :: _, hl, _ => by simp at hl
-  | _ :: _, [], hl, _ => by simp at hl
-  | x :: a, y :: b, hl, h => by
-    simp only [iscloseList] at h
-    split at h
-    · rename_i hxy
-      rw [(isclose1_zero x y).1 hxy, iscloseList_zero a b (by simpa using hl) h]
-    · simp at h
-
-theorem iscloseAxes_zero : ∀ (a b : List (List Q)), nbinsOf a = nbinsOf b → (∀ e ∈ a, e ≠ []) → (∀ e ∈ b, e ≠ []) →
-    iscloseAxes ⟨0, 0⟩ a b = .ok true → a = b
-  | [], [], _, _, _, _ => rfl
-  | [], _ :: _, hl, _, _, _ => by simp [nbinsOf] at hl
-  | _ :: _, [], hl, _, _, _ => by simp [nbinsOf] at hl
-  | x :: a, y :: b, hl, ha, hb, h => by
-    simp only [iscloseAxes] at h
-    simp only [nbinsOf, List.map_cons, List.cons.injEq] at hl
-    have hx := ha x List.mem_cons_self
-    have hy := hb y List.mem_cons_self
-    have hlen : x.length = y.length := by
-      have h1 : x.length ≠ 0 := by simpa using hx
-      have h2 : y.length ≠ 0 := by simpa using hy
-      omega
-    cases hc : iscloseList ⟨0, 0⟩ x y with
-    | error e => simp [hc, bind, Except.bind] at h
-    | ok cl =>
-      cases cl with
-      | false => simp [hc, bind, Except.bind, pure, Except.pure] at h
-      | true =>
-        simp only [hc, bind, Except.bind, if_true] at h
-        rw [iscloseList_zero x y hlen hc, iscloseAxes_zero a b hl.2 (fun e he => ha e (List.mem_cons_of_mem _ he))
-          (fun e he => hb e (List.mem_cons_of_mem _ he)) h]
-
 /-- no axis of the edges is empty (true of every constructed histogram) -/
 def Edges.NonEmptyAxes (e : Edges) : Prop := ∀ ax ∈ e.axes, ax ≠ []
 
@@ -399,17 +314,6 @@ example : exHist.edges.NonEmptyAxes := by simp [exHist, Edges.NonEmptyAxes, Edge
 
 "iter_bins, iter_bins_with_edges and iter_cells agree on content, index and edges". -/
 
-theorem ranges_eq (axes : List (List Q)) :
-    axes.map (fun e => List.range (e.length - 1)) = (nbinsOf axes).map List.range := by
-  simp [nbinsOf, List.map_map, Function.comp_def]
-
-/-- what the three iterators have in common for every cell `(idx, v)` that `iter_bins` yields -/
-theorem cell_facts (h : Hist) (wf : h.WF) (p : List Nat × Q) (hp : p ∈ cells h.bins) :
-    getBin h.bins p.1 = .ok (.leaf p.2) ∧ cellEdges h.edges.axes p.1 = .ok (cellEdgesRef h.edges.axes p.1) := by
-  refine ⟨?_, cellEdges_ok _ _ (inRange_of_mem_cells _ _ wf.2 p hp)⟩
-  rw [getBin_eq_ok_iff]
-  exact (mem_cells_iff h.bins p.1 p.2).1 hp
-
 /-- `iter_bins_with_edges(hist.bins, hist.edges)` yields, for the cells `(idx, v)` of `iter_bins(hist.bins)` in
 the same order, the content `v` with the edges of cell `idx`.  Any dimension, any shape. -/
 theorem iter_bins_with_edges_agrees (h : Hist) (wf : h.WF) :
@@ -423,22 +327,6 @@ theorem iter_bins_with_edges_agrees (h : Hist) (wf : h.WF) :
   intro p hp
   obtain ⟨h1, h2⟩ := cell_facts h wf p hp
   simp [h1, h2, bind, Except.bind, pure, Except.pure]
-
-theorem rangeFromTo_zero (n : Nat) : rangeFromTo 0 ((n : Int)) = List.range n := by
-  simp [rangeFromTo]
-
-theorem realIndRanges_default : ∀ (axes : List (List Q)),
-    realIndRanges axes (List.replicate axes.length (none, none)) = .ok ((nbinsOf axes).map List.range)
-  | [] => by simp [realIndRanges, nbinsOf]
-  | e :: es => by
-    have ih := realIndRanges_default es
-    have hcast : ((e.length : Int) - 1) = ((e.length - 1 : Nat) : Int) ∨ e.length = 0 := by omega
-    simp only [List.length_cons, List.replicate_succ, realIndRanges, ih, bind, Except.bind, pure, Except.pure,
-      nbinsOf, List.map_cons]
-    congr 2
-    rcases hcast with hc | hc
-    · rw [hc, rangeFromTo_zero]
-    · simp [hc, rangeFromTo]
 
 /-- `iter_cells(hist)` (no ranges) yields, for the cells `(idx, v)` of `iter_bins(hist.bins)` in the same order,
 `HistCell(edges of cell idx, v, idx)`.  Any dimension, any shape. -/
@@ -475,134 +363,6 @@ example : (iterBinsWithEdges exHist2.bins exHist2.edges).toOption.map (fun l => 
 
 /-! ### `iter_cells` with index ranges -/
 
-/-- all positions of an index tuple satisfy their predicate (and the lengths agree) -/
-def selAll : List (Nat → Bool) → List Nat → Bool
-  | [], [] => true
-  | p :: ps, i :: is => p i && selAll ps is
-  | _, _ => false
-
-theorem indexProd_filter : ∀ (ps : List (Nat → Bool)) (rs : List (List Nat)), ps.length = rs.length →
-    indexProd (List.zipWith (fun p r => r.filter p) ps rs) = (indexProd rs).filter (selAll ps)
-  | [], [], _ => by simp [indexProd, selAll, List.filter]
-  | [], _ :: _, h => by simp at h
-  | _ :: _, [], h => by simp at h
-  | p :: ps, r :: rs, h => by
-    have ih := indexProd_filter ps rs (by simpa using h)
-    simp only [List.zipWith_cons_cons, indexProd_cons, ih]
-    clear h
-    induction r with
-    | nil => simp
-    | cons i r ihr =>
-      simp only [List.filter_cons, List.flatMap_cons, List.filter_append]
-      rw [← ihr]
-      by_cases hp : p i = true
-      · simp only [hp, if_true, List.flatMap_cons]
-        congr 1
-        simp only [List.filter_map]
-        congr 1
-        apply List.filter_congr
-        intro t _
-        simp [selAll, hp]
-      · simp only [hp, if_false]
-        have : List.filter (selAll (p :: ps)) (List.map (fun x => i :: x) (indexProd rs)) = [] := by
-          simp only [List.filter_eq_nil_iff, List.mem_map]
-          rintro _ ⟨t, _, rfl⟩
-          simp [selAll, hp]
-        simp [this]
-
-theorem filter_range_ge (lo : Nat) : ∀ u : Nat,
-    (List.range u).filter (fun i => decide (lo ≤ i)) = (List.range (u - lo)).map (· + lo)
-  | 0 => by simp
-  | u + 1 => by
-    rw [List.range_succ, List.filter_append, filter_range_ge lo u]
-    by_cases h : lo ≤ u
-    · have : u + 1 - lo = (u - lo) + 1 := by omega
-      rw [this, List.range_succ, List.map_append]
-      simp [h]
-    · have : u + 1 - lo = u - lo := by omega
-      simp [h, this]
-
-theorem rangeFromTo_eq_filter (lo : Nat) (up : Int) : ∀ (n : Nat), up ≤ n →
-    rangeFromTo lo up = (List.range n).filter (fun (i : Nat) => decide ((lo : Int) ≤ (i : Int) ∧ (i : Int) < up))
-  | 0, hu => by
-    have : up.toNat = 0 := by omega
-    simp [rangeFromTo, this]
-  | n + 1, hu => by
-    by_cases hn : up ≤ (n : Int)
-    · rw [rangeFromTo_eq_filter lo up n hn, List.range_succ, List.filter_append]
-      have : ¬ ((n : Int) < up) := by omega
-      simp [this]
-    · have hup : up = ((n + 1 : Nat) : Int) := by omega
-      subst hup
-      simp only [rangeFromTo, Int.toNat_natCast]
-      rw [← filter_range_ge lo (n + 1)]
-      apply List.filter_congr
-      intro i hi
-      have := List.mem_range.1 hi
-      simp
-      omega
-
-/-- a range `(low, up)` that `iter_cells` accepts for an axis -/
-def ValidRange (e : List Q) (r : Option Int × Option Int) : Prop :=
-  (∀ l, r.1 = some l → 0 ≤ l) ∧ (∀ u, r.2 = some u → u ≤ (e.length : Int) - 1)
-
-/-- the bin indices `low ≤ i < up` that a range selects on an axis (`None`: no limit) -/
-def rangePred (e : List Q) (r : Option Int × Option Int) : Nat → Bool :=
-  fun i => decide (r.1.getD 0 ≤ (i : Int) ∧ (i : Int) < r.2.getD ((e.length : Int) - 1))
-
-/-- one valid range per axis -/
-def ValidRanges : List (List Q) → List (Option Int × Option Int) → Prop
-  | [], [] => True
-  | e :: es, r :: rs => ValidRange e r ∧ ValidRanges es rs
-  | _, _ => False
-
-theorem realIndRanges_cons_valid (e : List Q) (es : List (List Q)) (lo up : Option Int)
-    (rs : List (Option Int × Option Int)) (hv : ValidRange e (lo, up)) :
-    realIndRanges (e :: es) ((lo, up) :: rs) = (do
-      let tail ← realIndRanges es rs
-      pure (rangeFromTo (lo.getD 0).toNat (up.getD ((e.length : Int) - 1)) :: tail)) := by
-  obtain ⟨hlo, hup⟩ := hv
-  have h0 : ∀ l, lo = some l → ¬ l < 0 := fun l hl => by have := hlo l hl; omega
-  have h1 : ∀ u, up = some u → ¬ u > (e.length : Int) - 1 := fun u hu => by have := hup u hu; omega
-  cases lo <;> cases up <;> simp [realIndRanges, bind, Except.bind, pure, Except.pure, h0, h1]
-
-theorem head_range_eq (e : List Q) (lo up : Option Int) (hv : ValidRange e (lo, up)) :
-    rangeFromTo (lo.getD 0).toNat (up.getD ((e.length : Int) - 1)) =
-      (List.range (e.length - 1)).filter (rangePred e (lo, up)) := by
-  obtain ⟨hlo, hup⟩ := hv
-  have hle : up.getD ((e.length : Int) - 1) ≤ ((e.length - 1 : Nat) : Int) := by
-    cases up with
-    | none => simp; omega
-    | some u => have := hup u rfl; simp; omega
-  rw [rangeFromTo_eq_filter _ _ (e.length - 1) hle]
-  apply List.filter_congr
-  intro i _
-  have hnn : 0 ≤ lo.getD 0 := by
-    cases lo with
-    | none => simp
-    | some l => simpa using hlo l rfl
-  have hcast : (((lo.getD 0).toNat : Nat) : Int) = lo.getD 0 := by omega
-  simp only [rangePred, hcast]
-
-theorem realIndRanges_valid : ∀ (axes : List (List Q)) (rg : List (Option Int × Option Int)), ValidRanges axes rg →
-    realIndRanges axes rg = .ok (List.zipWith (fun p r => r.filter p) (List.zipWith rangePred axes rg)
-      ((nbinsOf axes).map List.range))
-  | [], [], _ => by simp [realIndRanges, nbinsOf]
-  | [], _ :: _, h => by simp [ValidRanges] at h
-  | _ :: _, [], h => by simp [ValidRanges] at h
-  | e :: es, (lo, up) :: rs, h => by
-    obtain ⟨hv, ht⟩ := h
-    have ih := realIndRanges_valid es rs ht
-    rw [realIndRanges_cons_valid e es lo up rs hv, ih, head_range_eq e lo up hv]
-    simp [bind, Except.bind, pure, Except.pure, nbinsOf]
-
-theorem validRanges_length : ∀ (axes : List (List Q)) (rg : List (Option Int × Option Int)), ValidRanges axes rg →
-    axes.length = rg.length
-  | [], [], _ => rfl
-  | [], _ :: _, h => by simp [ValidRanges] at h
-  | _ :: _, [], h => by simp [ValidRanges] at h
-  | _ :: es, _ :: rs, h => by simp [validRanges_length es rs h.2]
-
 /-- `iter_cells(hist, ranges)` with one valid index range per coordinate yields exactly the cells of `iter_bins`
 whose index lies in every range, in the same order, as `HistCell(edges, content, index)`.  Any dimension. -/
 theorem iter_cells_ranges (h : Hist) (wf : h.WF) (r : Option Int × Option Int) (rs : List (Option Int × Option Int))
@@ -626,50 +386,6 @@ example : ValidRanges exHist2.edges.axes [(some 1, none), (none, some 1)] := by
 example : (iterCells exHist2 (some [(some 1, none), (none, some 1)])).toOption.map (fun l => l.map (·.index)) =
     some [[1, 0]] := by decide +kernel
 
-/-- a negative lower index or an upper index beyond the number of bins is rejected: `LenaValueError` -/
-theorem realIndRanges_invalid : ∀ (axes : List (List Q)) (rg : List (Option Int × Option Int)),
-    rg.length ≤ axes.length →
-    (∃ (k : Nat) (e : List Q) (r : Option Int × Option Int), axes[k]? = some e ∧ rg[k]? = some r ∧ ¬ ValidRange e r) →
-    realIndRanges axes rg = .error .lenaValueError
-  | _, [], _, ⟨k, _, _, _, h, _⟩ => by simp at h
-  | [], _ :: _, hl, _ => by simp at hl
-  | e :: es, (lo, up) :: rs, hl, ⟨k, e', r', h1, h2, h3⟩ => by
-    by_cases hv : ValidRange e (lo, up)
-    · cases k with
-      | zero =>
-        simp at h1 h2
-        subst h1; subst h2
-        exact absurd hv h3
-      | succ k =>
-        have ih := realIndRanges_invalid es rs (by simpa using hl) ⟨k, e', r', by simpa using h1, by simpa using h2, h3⟩
-        obtain ⟨hlo, hup⟩ := hv
-        have h0 : ∀ l, lo = some l → ¬ l < 0 := fun l hl => by have := hlo l hl; omega
-        have h1 : ∀ u, up = some u → ¬ u > (e.length : Int) - 1 := fun u hu => by have := hup u hu; omega
-        cases lo <;> cases up <;> simp [realIndRanges, ih, bind, Except.bind, pure, Except.pure, h0, h1]
-    · cases lo with
-      | some l =>
-        by_cases hl0 : l < 0
-        · simp [realIndRanges, hl0, bind, Except.bind]
-        · cases up with
-          | none =>
-            exfalso; apply hv
-            exact ⟨fun l' h => by (cases h; omega), fun u h => by cases h⟩
-          | some u =>
-            by_cases hgt : u > (e.length : Int) - 1
-            · simp [realIndRanges, hl0, hgt, bind, Except.bind, pure, Except.pure]
-            · exfalso; apply hv
-              exact ⟨fun l' h => by (cases h; omega), fun u' h => by (cases h; omega)⟩
-      | none =>
-        cases up with
-        | none =>
-          exfalso; apply hv
-          exact ⟨fun l' h => by (cases h), fun u h => by cases h⟩
-        | some u =>
-          by_cases hgt : u > (e.length : Int) - 1
-          · simp [realIndRanges, hgt, bind, Except.bind, pure, Except.pure]
-          · exfalso; apply hv
-            exact ⟨fun l' h => by (cases h), fun u' h => by (cases h; omega)⟩
-
 theorem iter_cells_bad_range (h : Hist) (r : Option Int × Option Int) (rs : List (Option Int × Option Int))
     (hl : (r :: rs).length ≤ h.edges.axes.length)
     (hbad : ∃ (k : Nat) (e : List Q) (r' : Option Int × Option Int), h.edges.axes[k]? = some e ∧ (r :: rs)[k]? = some r' ∧ ¬ ValidRange e r') :
@@ -688,28 +404,6 @@ example : iterCells exHist (some [(none, some 3)]) = .error .lenaValueError :=
 
 "Rescaling … a graph to s multiplies exactly … the last coordinate and its error columns by s/old scale, leaves … the
 other coordinates untouched, makes the … scale equal s … and raises LenaValueError for a zero or unknown scale". -/
-
-/-- `field` is an error field of the coordinate `coord`: it is named `error_<coord>` or `error_<coord>_<suffix>` -/
-def ErrorFieldOf (coord field : Name) : Prop :=
-  ∃ rest, field = "error_".toList ++ rest ∧ (rest = coord ∨ ∃ tail, rest = coord ++ '_' :: tail)
-
-theorem errMatches_iff (f c : Name) (hf : isErrField f = true) :
-    errMatches (f.drop 6) c = true ↔ ErrorFieldOf c f := by
-  obtain ⟨rest, rfl⟩ := (isErrField_iff f).1 hf
-  have hd : (errorPrefix ++ rest).drop 6 = rest := by
-    rw [← errorPrefix_length, List.drop_left]
-  rw [hd]
-  simp only [errMatches, Bool.or_eq_true, beq_iff_eq, List.isPrefixOf_iff_prefix]
-  constructor
-  · rintro (h | ⟨t, ht⟩)
-    · exact ⟨rest, rfl, Or.inl h⟩
-    · exact ⟨rest, rfl, Or.inr ⟨t, by simpa using ht.symm⟩⟩
-  · rintro ⟨rest', h1, h2⟩
-    have : rest' = rest := List.append_cancel_left h1.symm
-    subst this
-    rcases h2 with h | ⟨t, ht⟩
-    · exact Or.inl h
-    · exact Or.inr ⟨t, by simp [ht]⟩
 
 /-- a graph whose scale is unknown or zero cannot be rescaled: `LenaValueError` -/
 theorem graph_scale_unknown_or_zero (g : Graph) (s : Q) (h : g.scale = none ∨ g.scale = some 0) :
@@ -797,5 +491,604 @@ theorem graph_scale (coords : List (List Q)) (fn : FieldNamesArg) (sc : Option Q
       rw [if_pos (hcont.2 (key.2 h))]
     · intro h
       rw [if_neg (fun h' => h (key.1 (hcont.1 h')))]
+
+/-! ## `hist_to_graph`
+
+"hist_to_graph yields one point per cell at its left/right/middle coordinate with that cell's value". -/
+
+/-- `hist_to_graph(hist, make_value, get_coordinate, field_names, scale)`, when it returns for a well-formed
+histogram and as many field names as a point has numbers (`dim` coordinates + `k` values): the rows of the graph are
+exactly one point per cell of `iter_bins(hist.bins)`, in that order — the cell's left / right / middle coordinates
+followed by its value(s); the field names are the given ones; the scale is the given number, the histogram's scale
+(`scale=True`) or unknown; the histogram's contents are not changed.  Any dimension. -/
+theorem hist_to_graph_points (h h1 : Hist) (wf : h.WF) (mv : Option (Q → List Q)) (mode : CoordMode)
+    (fields : FieldNamesArg) (sc : ScaleArg) (g : Graph) (k : Nat)
+    (hk : ∀ v, (graphValue mv v).length = k) (names : List Name) (hn : fieldNamesTuple fields = .ok names)
+    (hlen : names.length = h.dim + k)
+    (hok : histToGraph h mv mode fields sc = .ok (h1, g)) :
+    g.rows = (cells h.bins).map (fun p => pointOf mode mv (cellEdgesRef h.edges.axes p.1) p.2) ∧
+      g.fieldNames = names ∧ h1.bins = h.bins ∧ h1.edges = h.edges ∧ h1.nOut = h.nOut ∧
+      (match sc with
+        | .none => g.scale = none ∧ h1 = h
+        | .num s => g.scale = some s ∧ h1 = h
+        | .true => ∃ I, getScale h false = .ok (h1, I) ∧ g.scale = some I) := by
+  unfold histToGraph at hok
+  by_cases hmode : mode = .bad
+  · simp [hmode] at hok
+  simp only [hmode, if_false, hn, bind, Except.bind] at hok
+  -- the scale argument
+  cases e1 : resolveScale h sc with
+  | error e => simp [e1] at hok
+  | ok q =>
+  obtain ⟨h1', s'⟩ := q
+  have hres : h1'.bins = h.bins ∧ h1'.edges = h.edges ∧ h1'.nOut = h.nOut ∧
+      (match sc with
+        | .none => s' = none ∧ h1' = h
+        | .num s => s' = some s ∧ h1' = h
+        | .true => ∃ I, getScale h false = .ok (h1', I) ∧ s' = some I) := by
+    cases sc with
+    | none => simp [resolveScale] at e1; obtain ⟨rfl, rfl⟩ := e1; simp
+    | num s => simp [resolveScale] at e1; obtain ⟨rfl, rfl⟩ := e1; simp
+    | true =>
+      simp only [resolveScale, bind, Except.bind] at e1
+      cases hg : getScale h false with
+      | error e => simp [hg] at e1
+      | ok p =>
+        obtain ⟨h2, I⟩ := p
+        simp [hg, pure, Except.pure] at e1
+        obtain ⟨rfl, rfl⟩ := e1
+        have hf := getScale_frame h h2 false I hg
+        refine ⟨?_, ?_, ?_, I, rfl, rfl⟩ <;> rw [hf]
+  obtain ⟨hb, he, hno, hs'⟩ := hres
+  simp only [e1] at hok
+  have wf' : h1'.WF := by
+    unfold Hist.WF Hist.nbins at *
+    rw [hb, he]; exact wf
+  rw [iter_bins_with_edges_agrees h1' wf'] at hok
+  simp only at hok
+  -- the loop
+  have hcols : (names.map (fun _ => ([] : List Q))) ≠ [] := by
+    have : names.length ≠ 0 := by
+      have := wf.1
+      have hd : h.dim ≠ 0 := by
+        unfold Hist.dim; intro h0; exact this (List.length_eq_zero_iff.1 h0)
+      omega
+    intro h0
+    exact this (by simpa using congrArg List.length h0)
+  have hrowlen : ∀ p ∈ (cells h1'.bins).map (fun p => (p.2, cellEdgesRef h1'.edges.axes p.1)),
+      (pointOf mode mv p.2 p.1).length = names.length := by
+    intro p hp
+    obtain ⟨q, hq, rfl⟩ := List.mem_map.1 hp
+    have hs : HasShape (nbinsOf h1'.edges.axes) h1'.bins := wf'.2
+    have hin := inRange_of_mem_cells _ _ hs q hq
+    simp only [pointOf, List.length_append, getCoord_length mode hmode, cellEdgesRef_length _ _ hin, hk, hlen]
+    simp [Hist.dim, he]
+  obtain ⟨cols', l1, l2, l3, l4⟩ := graphLoop_spec mode mv names.length _ (names.map (fun _ => [])) 0 hcols
+    (by simp) (by simp) hrowlen
+  rw [List.map_map] at l1
+  have hfun : ((fun p : Q × List (Q × Q) => ((NArr.leaf p.1 : NArr Q), p.2)) ∘
+      fun p : List Nat × Q => (p.2, cellEdgesRef h1'.edges.axes p.1)) =
+      fun p => (NArr.leaf p.2, cellEdgesRef h1'.edges.axes p.1) := rfl
+  rw [hfun] at l1
+  rw [l1] at hok
+  simp only at hok
+  cases hmk : mkGraph cols' (.tuple names) s' with
+  | error e => simp [hmk] at hok
+  | ok g' =>
+    simp [hmk, pure, Except.pure] at hok
+    obtain ⟨rfl, rfl⟩ := hok
+    obtain ⟨_, gco, gsc, gfn, _, _, _⟩ := mkGraph_inv _ _ _ _ hmk
+    have hz : zipRows (names.map (fun _ => ([] : List Q))) = [] := by
+      have := zipRows_length 0 (names.map (fun _ => ([] : List Q))) hcols (by simp)
+      exact List.length_eq_zero_iff.1 this
+    refine ⟨?_, ?_, hb, he, hno, ?_⟩
+    · simp only [Graph.rows, gco, l2, hz, List.nil_append, List.map_map, hb, he]
+      rfl
+    · simp [fieldNamesTuple] at gfn
+      exact gfn.symm
+    · cases sc <;> simp_all
+
+example : (histToGraph exHist2 none .middle (.str "x,y,z".toList) .true).toOption.map
+    (fun p => (p.2.rows, p.2.scale, p.2.dim)) = some ([[1/2, 1, 1], [2, 1, 2]], some 10, 3) := by decide +kernel
+example : (histToGraph exHist (some (fun v => [v, v / 2])) .right (.tuple ["x".toList, "y".toList, "error_y".toList])
+    (.num 7)).toOption.map (fun p => (p.2.rows, p.2.scale, p.2.dim)) =
+    some ([[1, 1, 1/2], [3, 2, 1]], some 7, 2) := by decide +kernel
+
+/-- an unknown `get_coordinate` is rejected: `LenaValueError` -/
+theorem hist_to_graph_bad_mode (h : Hist) (mv : Option (Q → List Q)) (fields : FieldNamesArg) (sc : ScaleArg) :
+    histToGraph h mv .bad fields sc = .error .lenaValueError := by
+  simp [histToGraph]
+
+/-- the three coordinate modes: the lower edges, the upper edges, the midpoints -/
+theorem getCoord_spec (ed : List (Q × Q)) :
+    getCoord .left ed = ed.map (·.1) ∧ getCoord .right ed = ed.map (·.2) ∧
+      getCoord .middle ed = ed.map (fun c => (c.1 + c.2) / 2) := by
+  refine ⟨rfl, rfl, ?_⟩
+  simp only [getCoord]
+  apply List.map_congr_left
+  intro c _
+  grind
+
+/-! ## CSV rows
+
+"ToCSV writes one row per cell (plus the rows duplicating the last edge when requested)".  Rows are tuples of
+numbers here; the text and its precision are checked by the harness. -/
+
+/-- `ToCSV.run` on a one-dimensional histogram with edges `xs ++ [xLast]` and as many bins `vals` as `xs`: one row
+`(lower edge, content)` per bin in order, plus `(last edge, last content)` when `duplicate_last_bin` — the
+context's `output.duplicate_last_bin`, if present, else the element's.  Any number of bins. -/
+theorem csv_rows_1d (xs vs : List Q) (xLast vLast : Q) (hlen : xs.length = vs.length + 1) (nOut : Q)
+    (sc : Option Q) (ctxDup : Option Bool) (elemDup : Bool) :
+    toCsvHist { edges := .flat (xs ++ [xLast]), bins := bins1d (vs ++ [vLast]), nOut := nOut, scale := sc }
+        true ctxDup elemDup =
+      .ok (.table (List.zipWith (fun x v => [x, v]) xs (vs ++ [vLast]) ++
+        (if ctxDup.getD elemDup then [[xLast, vLast]] else []))) := by
+  have := rows1d_spec xs (vs ++ [vLast]) xLast vLast vs rfl (by simp [hlen])
+  cases ctxDup <;> simp [toCsvHist, this, bind, Except.bind, pure, Except.pure]
+
+example : toCsvHist exHist true none true = .ok (.table [[0, 1], [1, 2], [3, 2]]) :=
+  csv_rows_1d [0, 1] [1] 3 2 rfl 1 none none true
+example : toCsvHist exHist true (some false) true = .ok (.table [[0, 1], [1, 2]]) :=
+  csv_rows_1d [0, 1] [1] 3 2 rfl 1 none (some false) true
+
+/-- `ToCSV.run` on a two-dimensional histogram with edges `xs ++ [xLast]`, `ys ++ [yLast]` and contents `vals`
+(one row of `ys.length` numbers per `x` bin): for every `x` bin one row `(x, y, content)` per `y` bin, plus (when
+duplicating) the last of these at `yLast`; then (when duplicating) the same for the last `x` bin at `xLast`.
+Without duplication that is one row per cell; with it `(nx + 1) * (ny + 1)` rows (`csv_rows_2d_count`). -/
+theorem csv_rows_2d (xs ys : List Q) (xLast yLast : Q) (vs : List (List Q)) (rLast : List Q)
+    (hx : xs.length = vs.length + 1) (hys : ys ≠ []) (hv : ∀ r ∈ vs ++ [rLast], r.length = ys.length)
+    (nOut : Q) (sc : Option Q) (ctxDup : Option Bool) (elemDup : Bool) :
+    toCsvHist { edges := .nested [xs ++ [xLast], ys ++ [yLast]], bins := bins2d (vs ++ [rLast]), nOut := nOut,
+                scale := sc } true ctxDup elemDup =
+      .ok (.table ((List.zipWith (rowsFor ys yLast (ctxDup.getD elemDup)) xs (vs ++ [rLast])).flatten ++
+        (if ctxDup.getD elemDup then rowsFor ys yLast true xLast rLast else []))) := by
+  have := rows2d_spec xs ys xLast yLast (vs ++ [rLast]) vs rLast rfl (by simp [hx]) hys hv
+  cases ctxDup <;> simp [toCsvHist, this, bind, Except.bind, pure, Except.pure]
+
+example : toCsvHist exHist2 true none true =
+    .ok (.table [[0, 0, 1], [0, 2, 1], [1, 0, 2], [1, 2, 2], [3, 0, 2], [3, 2, 2]]) :=
+  csv_rows_2d [0, 1] [0] 3 2 [[1]] [2] rfl (by simp) (by simp) 0 none none true
+
+/-- the number of rows written for an `nx × ny` histogram: `nx * ny`, or `(nx + 1) * (ny + 1)` with
+`duplicate_last_bin` -/
+theorem csv_rows_2d_count (xs ys : List Q) (yLast xLast : Q) (vs : List (List Q)) (rLast : List Q)
+    (hx : xs.length = vs.length + 1) (hys : ys ≠ []) (hv : ∀ r ∈ vs ++ [rLast], r.length = ys.length) (dup : Bool) :
+    ((List.zipWith (rowsFor ys yLast dup) xs (vs ++ [rLast])).flatten ++
+        (if dup then rowsFor ys yLast true xLast rLast else [])).length =
+      (xs.length + (if dup then 1 else 0)) * (ys.length + (if dup then 1 else 0)) := by
+  have h1 := flatten_zipWith_length (rowsFor ys yLast dup) (ys.length + (if dup then 1 else 0)) xs (vs ++ [rLast])
+    (by simp [hx]) (fun x r hr => rowsFor_length ys yLast dup x r (hv r hr) hys)
+  have h2 := rowsFor_length ys yLast true xLast rLast (hv rLast (by simp)) hys
+  cases dup
+  · simp [h1]
+  · simp only [List.length_append, h1, if_true, h2]
+    rw [Nat.add_mul]; omega
+
+/-- a value whose context says `output.to_csv = False` is yielded unchanged -/
+theorem csv_not_converted (h : Hist) (ctxDup : Option Bool) (elemDup : Bool) :
+    toCsvHist h false ctxDup elemDup = .ok .unchanged := by
+  simp [toCsvHist]
+
+/-- histograms of three and more dimensions are yielded unchanged (with a warning) -/
+theorem csv_dim3_unchanged (e1 e2 e3 : List Q) (es : List (List Q)) (b : NArr Q) (nOut : Q) (sc : Option Q)
+    (toCsv : Bool) (ctxDup : Option Bool) (elemDup : Bool) :
+    toCsvHist { edges := .nested (e1 :: e2 :: e3 :: es), bins := b, nOut := nOut, scale := sc } toCsv ctxDup elemDup =
+      .ok .unchanged := by
+  cases toCsv <;> simp [toCsvHist]
+
+/-- a graph is written as its points, one row per point -/
+theorem csv_graph_rows (g : Graph) : toCsvGraph g true = .table g.rows ∧ toCsvGraph g false = .unchanged := by
+  simp [toCsvGraph]
+
+/-! ## `scale_to`, `GroupScale`, `ScaleTo` use the structures' own `scale`
+
+"scale_to / ScaleTo use structure.scale" (anchor): what happens to each structure is exactly `hist.scale(s)` /
+`graph.scale(s)` of the theorems above. -/
+
+/-- `ScaleTo(s)(value)` returns the structure rescaled by its own `scale(s)` method, and raises whatever that
+raises -/
+theorem scale_to_call_spec (d d' : Struct) (s : Q) :
+    scaleToCall d s = .ok d' ↔
+      (∃ h h', d = .hist h ∧ setScale h s = .ok h' ∧ d' = .hist h') ∨
+      (∃ g g', d = .graph g ∧ graphSetScale g s = .ok g' ∧ d' = .graph g') := by
+  unfold scaleToCall structScale
+  cases d with
+  | hist h =>
+    cases hs : setScale h s with
+    | ok h' =>
+      simp only [hs]
+      constructor
+      · intro hd; simp at hd; exact Or.inl ⟨h, h', rfl, hs, hd.symm⟩
+      · rintro (⟨h0, h0', he, hs0, rfl⟩ | ⟨g, g', he, _, _⟩)
+        · cases he; rw [hs] at hs0; cases hs0; rfl
+        · cases he
+    | error e =>
+      simp only [hs]
+      constructor
+      · intro hd; simp at hd
+      · rintro (⟨h0, h0', he, hs0, _⟩ | ⟨g, g', he, _, _⟩)
+        · cases he; rw [hs] at hs0; cases hs0
+        · cases he
+  | graph g =>
+    cases hs : graphSetScale g s with
+    | ok g' =>
+      simp only [hs]
+      constructor
+      · intro hd; simp at hd; exact Or.inr ⟨g, g', rfl, hs, hd.symm⟩
+      · rintro (⟨h0, h0', he, _, _⟩ | ⟨g0, g0', he, hs0, rfl⟩)
+        · cases he
+        · cases he; rw [hs] at hs0; cases hs0; rfl
+    | error e =>
+      simp only [hs]
+      constructor
+      · intro hd; simp at hd
+      · rintro (⟨h0, h0', he, _, _⟩ | ⟨g0, g0', he, hs0, _⟩)
+        · cases he
+        · cases he; rw [hs] at hs0; cases hs0
+  | other =>
+    simp
+
+/-- `ScaleTo` raises `LenaValueError` for a histogram with zero scale and for a graph with zero or unknown
+scale; an object without `scale` gives the builtin `AttributeError` (`none`) -/
+theorem scale_to_call_errors (s : Q) :
+    (∀ h, (getScale h false).toOption.map (·.2) = some 0 → scaleToCall (.hist h) s = .error (some .lenaValueError)) ∧
+    (∀ g, (g.scale = none ∨ g.scale = some 0) → scaleToCall (.graph g) s = .error (some .lenaValueError)) ∧
+    scaleToCall .other s = .error none := by
+  refine ⟨?_, ?_, rfl⟩
+  · intro h hz
+    simp [scaleToCall, structScale, hist_scale_zero h s hz]
+  · intro g hg
+    simp [scaleToCall, structScale, graph_scale_unknown_or_zero g s hg]
+
+/-- what `scale_to` does to one item it does not stop at: rescaled by its own method, or left as it is because it
+cannot be rescaled and that is allowed -/
+inductive ItemDone (s : Option Q) (az au : Bool) : Struct → Struct → Prop
+  | scaled (d d' : Struct) : structScale d s = .ok d' → ItemDone s az au d d'
+  | zeroAllowed (d d' : Struct) : structScale d s = .raised .lenaValueError d' → az = true → ItemDone s az au d d'
+  | unknownAllowed (d : Struct) : structScale d s = .attributeError → au = true → ItemDone s az au d d
+
+/-- item by item -/
+def AllDone (s : Option Q) (az au : Bool) : List Struct → List Struct → Prop
+  | [], [] => True
+  | d :: ds, d' :: ds' => ItemDone s az au d d' ∧ AllDone s az au ds ds'
+  | _, _ => False
+
+/-- the item `scale_to` stops at: it has no `scale` (and that is not allowed), or its `scale` raised (and, for a
+`LenaValueError`, zero scales are not allowed); `d'` is what is left of it -/
+def ItemFails (s : Option Q) (az au : Bool) (d d' : Struct) (e : Err) : Prop :=
+  (structScale d s = .attributeError ∧ au = false ∧ e = .lenaValueError ∧ d' = d) ∨
+  (structScale d s = .raised e d' ∧ (e = .lenaValueError → az = false))
+
+/-- what the loop of `scale_to` leaves: without exception every item was handled in order; with an exception `err`
+the items before the failing one were handled, the failing one is as its `scale` left it, the rest is untouched -/
+def LoopPost (s : Option Q) (az au : Bool) (group group' : List Struct) : Option Err → Prop
+  | none => AllDone s az au group group'
+  | some err => ∃ pre pre' d d' post, group = pre ++ d :: post ∧ group' = pre' ++ d' :: post ∧
+      AllDone s az au pre pre' ∧ ItemFails s az au d d' err
+
+theorem scale_loop_spec (s : Option Q) (az au : Bool) : ∀ (group group' : List Struct) (e : Option Err),
+    scaleLoop s az au group = (group', e) → LoopPost s az au group group' e
+  | [], group', e, h => by
+    simp [scaleLoop] at h
+    obtain ⟨rfl, rfl⟩ := h
+    exact (trivial : AllDone s az au [] [])
+  | d :: rest, group', e, h => by
+    simp only [scaleLoop] at h
+    -- continue with the rest after a handled item `d ↦ d1`
+    have cont : ∀ d1, ItemDone s az au d d1 →
+        ((let (r, e) := scaleLoop s az au rest; (d1 :: r, e)) = (group', e)) →
+        LoopPost s az au (d :: rest) group' e := by
+      intro d1 hd1 hh
+      cases hr : scaleLoop s az au rest with
+      | mk r e' =>
+        simp [hr] at hh
+        obtain ⟨rfl, rfl⟩ := hh
+        have ih := scale_loop_spec s az au rest r e' hr
+        cases e' with
+        | none => exact ⟨hd1, ih⟩
+        | some err =>
+          obtain ⟨pre, pre', d0, d', post, h1, h2, h3, h4⟩ := ih
+          exact ⟨d :: pre, d1 :: pre', d0, d', post, by simp [h1], by simp [h2], ⟨hd1, h3⟩, h4⟩
+    cases hs : structScale d s with
+    | ok d1 =>
+      simp only [hs] at h
+      exact cont d1 (.scaled d d1 hs) h
+    | attributeError =>
+      simp only [hs] at h
+      cases au with
+      | true =>
+        simp only [Bool.not_true, Bool.false_eq_true, if_false] at h
+        exact cont d (.unknownAllowed d hs rfl) h
+      | false =>
+        simp at h
+        obtain ⟨rfl, rfl⟩ := h
+        exact ⟨[], [], d, d, rest, rfl, rfl, trivial, Or.inl ⟨hs, rfl, rfl, rfl⟩⟩
+    | raised err d1 =>
+      simp only [hs] at h
+      by_cases herr : err = .lenaValueError
+      · subst herr
+        cases az with
+        | true =>
+          simp only [Bool.not_true, Bool.false_eq_true, if_false, if_true] at h
+          exact cont d1 (.zeroAllowed d d1 hs rfl) h
+        | false =>
+          simp at h
+          obtain ⟨rfl, rfl⟩ := h
+          exact ⟨[], [], d, d1, rest, rfl, rfl, trivial, Or.inr ⟨hs, fun _ => rfl⟩⟩
+      · simp [herr] at h
+        obtain ⟨rfl, rfl⟩ := h
+        exact ⟨[], [], d, d1, rest, rfl, rfl, trivial, Or.inr ⟨hs, fun h0 => absurd h0 herr⟩⟩
+
+/-- `scale_to(number, group)` is that loop -/
+theorem scale_to_number (s : Q) (group : List Struct) (az au : Bool) :
+    scaleTo (.num s) group az au = scaleLoop (some s) az au group := rfl
+
+/-- `scale_to(selector, group)`: no or several selected items raise `LenaValueError` and change nothing; a unique
+candidate gives its scale (a histogram computes and stores it) to the loop -/
+theorem scale_to_selector (t : ScaleTarget) (ht : ∀ s, t ≠ .num s) (group : List Struct) (az au : Bool) :
+    (group.filter t.selects = [] → scaleTo t group az au = (group, some .lenaValueError)) ∧
+    (∀ c1 c2 cs, group.filter t.selects = c1 :: c2 :: cs → scaleTo t group az au = (group, some .lenaValueError)) ∧
+    (∀ cand cand' sc, group.filter t.selects = [cand] → structGetScale cand = .ok (cand', sc) →
+      scaleTo t group az au = scaleLoop sc az au (replaceCand t cand' group)) := by
+  cases t with
+  | num s => exact absurd rfl (ht s)
+  | selectHist =>
+    refine ⟨fun h => by simp [scaleTo, h], fun c1 c2 cs h => by simp [scaleTo, h], fun c c' sc h hg => ?_⟩
+    simp [scaleTo, h, hg]
+  | selectGraph =>
+    refine ⟨fun h => by simp [scaleTo, h], fun c1 c2 cs h => by simp [scaleTo, h], fun c c' sc h hg => ?_⟩
+    simp [scaleTo, h, hg]
+
+example : (scaleTo (.num 10) [.hist exHist, .other] false true).2 = none ∧
+    ((scaleTo (.num 10) [.hist exHist, .other] false true).1.map
+      (fun d => match d with | .hist h => values h.bins | _ => [])) = [[2, 4], []] := by decide +kernel
+example : (scaleTo (.num 10) [.hist exHist, .other] false false).2 = some .lenaValueError := by decide +kernel
+
+/-! ## Constructed histograms are well-formed; `add` is defined on equal edges -/
+
+theorem hasShape_full (v : Q) : ∀ (dims : List Nat), HasShape dims (full dims v)
+  | [] => by simp [full, HasShape]
+  | n :: ns => by
+    simp only [full, HasShape, List.length_replicate, true_and]
+    intro x hx
+    rw [List.eq_of_mem_replicate hx]
+    exact hasShape_full v ns
+
+/-- `histogram(edges)` (bins from `initial_value`) is well-formed: its bins have the shape of its edges, every
+cell holds the initial value, nothing is out of range, the scale is not computed -/
+theorem mkHist_wf (e : Edges) (init : Q) (h : Hist) (hk : mkHist e none init = .ok h) :
+    h.WF ∧ h.edges = e ∧ h.bins = full (nbinsOf e.axes) init ∧ h.nOut = 0 ∧ h.scale = none ∧
+      checkEdgesIncreasing e = .ok () := by
+  unfold mkHist at hk
+  cases hce : checkEdgesIncreasing e with
+  | error err => simp [hce, bind, Except.bind] at hk
+  | ok u =>
+    simp only [hce, bind, Except.bind] at hk
+    split at hk
+    · simp at hk
+    · simp at hk
+    · rename_i e0 rest hax
+      simp [pure, Except.pure] at hk
+      subst hk
+      refine ⟨⟨?_, ?_⟩, rfl, ?_, rfl, rfl, rfl⟩
+      · simp [hax]
+      · simp only [Hist.nbins, hax]; exact hasShape_full init _
+      · simp [hax]
+
+example : (mkHist (.nested [[0, 1, 3], [0, 2]]) none 0).toOption.map (fun h => values h.bins) = some [0, 0] := by
+  decide +kernel
+
+/-- a histogram given bins of the shape of its (checked) edges -/
+structure Hist.Valid (h : Hist) : Prop where
+  wf : h.WF
+  edges_ok : checkEdgesIncreasing h.edges = .ok ()
+  not_single_nested : ∀ ax, h.edges ≠ .nested [ax]
+
+theorem isclose1_self (t : Tol) (hr : 0 ≤ t.rel) (x : Q) : isclose1 t x x = true := by
+  simp only [isclose1, decide_eq_true_eq, Rat.abs]
+  have : x - x = 0 := by grind
+  rw [this]
+  simp
+  have h1 : 0 ≤ t.rel * max (if 0 ≤ x then x else -x) (if 0 ≤ x then x else -x) := by
+    apply Rat.mul_nonneg hr
+    split <;> grind
+  grind
+
+theorem iscloseList_self (t : Tol) (hr : 0 ≤ t.rel) : ∀ (a : List Q), iscloseList t a a = .ok true
+  | [] => rfl
+  | x :: a => by simp [iscloseList, isclose1_self t hr x, iscloseList_self t hr a]
+
+theorem iscloseAxes_self (t : Tol) (hr : 0 ≤ t.rel) : ∀ (a : List (List Q)), iscloseAxes t a a = .ok true
+  | [] => rfl
+  | x :: a => by simp [iscloseAxes, iscloseList_self t hr x, iscloseAxes_self t hr a, bind, Except.bind]
+
+theorem iscloseEdges_self (t : Tol) (hr : 0 ≤ t.rel) (e : Edges) : iscloseEdges t e e = .ok true := by
+  cases e with
+  | flat a => simp [iscloseEdges, iscloseList_self t hr a]
+  | nested a => simp [iscloseEdges, iscloseAxes_self t hr a]
+
+/-- "…and only for equal edges" — conversely, valid histograms with equal edges are always added (any weight, any
+non-negative tolerance): `add` raises nothing -/
+theorem add_defined (a b : Hist) (w : Q) (t : Tol) (ha : a.Valid) (hb : b.Valid) (he : a.edges = b.edges)
+    (hr : 0 ≤ t.rel) : ∃ c, add a b w t = .ok c := by
+  have hn : a.nbins = b.nbins := by simp [Hist.nbins, he]
+  have hc : iscloseEdges t a.edges b.edges = .ok true := by rw [← he]; exact iscloseEdges_self t hr _
+  -- the shape
+  obtain ⟨n, ns, hdims⟩ : ∃ n ns, a.nbins = n :: ns := by
+    have := ha.wf.1
+    unfold Hist.nbins nbinsOf
+    cases hax : a.edges.axes with
+    | nil => exact absurd hax this
+    | cons e es => exact ⟨_, _, rfl⟩
+  have hsa : HasShape (n :: ns) a.bins := hdims ▸ ha.wf.2
+  have hsb : HasShape (n :: ns) b.bins := by rw [← hdims, hn]; exact hb.wf.2
+  have hob : ∃ ob, weightedBins b w = .ok ob ∧ HasShape (n :: ns) ob := by
+    unfold weightedBins
+    by_cases hw : w = 1
+    · exact ⟨b.bins, by simp [hw, pure, Except.pure], hsb⟩
+    · exact ⟨map (fun val => val * w) b.bins, by simp [hw, mdMap_ok _ ns n b.bins hsb], hasShape_map _ _ _ hsb⟩
+  obtain ⟨ob, ho, hso⟩ := hob
+  have hm := mdMap2_ok (· + ·) ns n a.bins ob hsa hso
+  have hsz := hasShape_zipWith (· + ·) (n :: ns) a.bins ob hsa hso
+  -- the constructor accepts the new bins
+  have hk : ∃ nh, mkHist a.edges (some (zipWith (· + ·) a.bins ob)) 0 = .ok nh := by
+    unfold mkHist
+    simp only [ha.edges_ok, bind, Except.bind]
+    cases hz : zipWith (· + ·) a.bins ob with
+    | leaf v => rw [hz] at hsz; simp [HasShape] at hsz
+    | node xs =>
+      rw [hz] at hsz
+      simp only [HasShape] at hsz
+      cases hed : a.edges with
+      | flat e0 =>
+        have : n = e0.length - 1 := by
+          have := hdims; simp [Hist.nbins, nbinsOf, hed, Edges.axes] at this; exact this.1.symm
+        simp [Edges.axes, lenBins, hsz.1, this, pure, Except.pure]
+      | nested es =>
+        cases es with
+        | nil => have := ha.wf.1; simp [hed, Edges.axes] at this
+        | cons e0 rest =>
+          have h1 : n = e0.length - 1 := by
+            have := hdims; simp [Hist.nbins, nbinsOf, hed, Edges.axes] at this; exact this.1.symm
+          cases rest with
+          | nil => exact absurd hed (ha.not_single_nested e0)
+          | cons e1 rest' => simp [Edges.axes, lenBins, hsz.1, h1, pure, Except.pure]
+  obtain ⟨nh, hk⟩ := hk
+  refine ⟨{ nh with nOut := a.nOut + b.nOut * w }, ?_⟩
+  by_cases hw : w = 1
+  · subst hw
+    have : ob = b.bins := by simp [weightedBins, pure, Except.pure] at ho; exact ho.symm
+    subst this
+    simp [add, hn, hc, hm, hk, bind, Except.bind, pure, Except.pure]
+  · have : mdMap (fun val => val * w) b.bins = .ok ob := by simpa [weightedBins, hw] using ho
+    simp [add, hn, hc, hw, this, hm, hk, bind, Except.bind, pure, Except.pure]
+
+theorem ok_of_toOption {α : Type} (x : Except Err α) (a : α) (h : x.toOption = some a) : x = .ok a := by
+  cases x with
+  | error e => simp [Except.toOption] at h
+  | ok b => simp [Except.toOption] at h; rw [h]
+
+example : exHist.Valid := ⟨exHist_wf, ok_of_toOption _ _ (by decide +kernel), by simp [exHist]⟩
+example : (add exHist { exHist with bins := .node [.leaf 5, .leaf 7] } (-1) ⟨1 / 1000000000, 0⟩).toOption.map
+    (fun c => values c.bins) = some [-4, -5] := by decide +kernel
+
+/-! ## Every valid naming is accepted -/
+
+/-- "in every valid naming": coordinate fields first (at least one, none named `error_…`), then error fields each
+belonging to exactly one coordinate, all names distinct, one array per name, arrays of equal length — such a graph is
+accepted, and its dimension is the number of coordinate fields -/
+theorem graph_valid_naming (coords : List (List Q)) (cs es : List Name) (sc : Option Q)
+    (hcs : cs ≠ []) (hc : ∀ c ∈ cs, isErrField c = false)
+    (he : ∀ f ∈ es, isErrField f = true ∧ ∃ c, cs.filter (errMatches (f.drop 6)) = [c])
+    (hd : hasDuplicates (cs ++ es) = false) (hlen : (cs ++ es).length = coords.length)
+    (hsame : sameLengths coords = true) :
+    ∃ g, mkGraph coords (.tuple (cs ++ es)) sc = .ok g ∧ g.dim = cs.length ∧ g.fieldNames = cs ++ es ∧
+      g.coords = coords ∧ g.scale = sc := by
+  have hne : coords.isEmpty = false := by
+    cases coords with
+    | nil => simp at hlen; exact absurd hlen.1 hcs
+    | cons _ _ => rfl
+  have hsf := splitFields_ok cs es 0 0 hc (fun f hf => (he f hf).1)
+  simp only [hcs, if_false, Nat.zero_add] at hsf
+  have hcl : cs.length - 1 + 1 = cs.length := by
+    have : cs.length ≠ 0 := by simpa using hcs
+    omega
+  obtain ⟨parsed, hp, hpl⟩ := parseErrs_ok cs (es.zipIdx cs.length) (by
+    intro p hp
+    obtain ⟨f, i⟩ := p
+    have hf : f ∈ es := by
+      have := List.mem_zipIdx hp
+      rw [List.mem_iff_getElem]
+      exact ⟨i - cs.length, by omega, this.2.2.symm⟩
+    exact (he f hf).2)
+  have hpe : parseErrorNames (cs ++ es) = .ok parsed := by
+    simp [parseErrorNames, hsf, bind, Except.bind, hcl, hp]
+  refine ⟨{ coords := coords, fieldNames := cs ++ es, scale := sc, parsed := parsed,
+            dim := (cs ++ es).length - parsed.length }, ?_, ?_, rfl, rfl, rfl⟩
+  · simp [mkGraph, hne, hsame, fieldNamesTuple, hlen, hd, hpe, bind, Except.bind, pure, Except.pure]
+  · simp [hpl]
+
+example : ∃ g, mkGraph [[1, 2], [3, 4], [1, 1]] (.tuple ["x".toList, "y".toList, "error_y_low".toList]) (some 2) = .ok g ∧
+    g.dim = 2 := by
+  obtain ⟨g, h1, h2, _⟩ := graph_valid_naming [[1, 2], [3, 4], [1, 1]] ["x".toList, "y".toList] ["error_y_low".toList]
+    (some 2) (by simp) (by decide) (by
+      intro f hf
+      simp at hf
+      subst hf
+      exact ⟨by decide, "y".toList, by decide⟩) (by decide) (by decide) (by decide)
+  exact ⟨g, h1, h2⟩
+
+theorem sameLengths_of_all (m : Nat) : ∀ (cols : List (List Q)), (∀ c ∈ cols, c.length = m) → sameLengths cols = true
+  | [], _ => rfl
+  | c :: cs, h => by
+    simp only [sameLengths, List.all_eq_true, beq_iff_eq]
+    intro x hx
+    rw [h x (List.mem_cons_of_mem _ hx), h c List.mem_cons_self]
+
+/-- `hist_to_graph` is defined on every well-formed histogram for the three coordinate modes, any `make_value` with
+`k ≥ 0` values per bin and any valid naming of `dim + k` fields (`graph_valid_naming`), whatever the `scale` argument -/
+theorem hist_to_graph_defined (h : Hist) (wf : h.WF) (mv : Option (Q → List Q)) (mode : CoordMode) (hmode : mode ≠ .bad)
+    (sc : ScaleArg) (k : Nat) (hk : ∀ v, (graphValue mv v).length = k) (cs es : List Name)
+    (hlen : (cs ++ es).length = h.dim + k)
+    (hcs : cs ≠ []) (hc : ∀ c ∈ cs, isErrField c = false)
+    (he : ∀ f ∈ es, isErrField f = true ∧ ∃ c, cs.filter (errMatches (f.drop 6)) = [c])
+    (hd : hasDuplicates (cs ++ es) = false) :
+    ∃ h1 g, histToGraph h mv mode (.tuple (cs ++ es)) sc = .ok (h1, g) ∧ g.dim = cs.length := by
+  -- the scale argument never fails on a well-formed histogram
+  obtain ⟨h1, s', hres, hb, hed⟩ : ∃ h1 s', resolveScale h sc = .ok (h1, s') ∧ h1.bins = h.bins ∧ h1.edges = h.edges := by
+    cases sc with
+    | none => exact ⟨h, none, rfl, rfl, rfl⟩
+    | num s => exact ⟨h, some s, rfl, rfl, rfl⟩
+    | true =>
+      obtain ⟨I, hg, _⟩ := hist_scale_total h wf 0
+      exact ⟨{ h with scale := some I }, some I, by simp [resolveScale, hg, bind, Except.bind, pure, Except.pure],
+        rfl, rfl⟩
+  have wf' : h1.WF := by
+    unfold Hist.WF Hist.nbins at *
+    rw [hb, hed]; exact wf
+  have hit := iter_bins_with_edges_agrees h1 wf'
+  have hcols : ((cs ++ es).map (fun _ => ([] : List Q))) ≠ [] := by
+    intro h0
+    have := congrArg List.length h0
+    simp at this
+    exact hcs this.1
+  have hrowlen : ∀ p ∈ (cells h1.bins).map (fun p => (p.2, cellEdgesRef h1.edges.axes p.1)),
+      (pointOf mode mv p.2 p.1).length = (cs ++ es).length := by
+    intro p hp
+    obtain ⟨q, hq, rfl⟩ := List.mem_map.1 hp
+    have hs : HasShape (nbinsOf h1.edges.axes) h1.bins := wf'.2
+    have hin := inRange_of_mem_cells _ _ hs q hq
+    simp only [pointOf, List.length_append, getCoord_length mode hmode, cellEdgesRef_length _ _ hin, hk] at *
+    rw [hed]; simp [Hist.dim] at hlen; omega
+  obtain ⟨cols', l1, _, l3, l4⟩ := graphLoop_spec mode mv (cs ++ es).length _ ((cs ++ es).map (fun _ => [])) 0 hcols
+    (by simp) (by intro c hc'; obtain ⟨_, _, rfl⟩ := List.mem_map.1 hc'; rfl) hrowlen
+  rw [List.map_map] at l1
+  have hfun : ((fun p : Q × List (Q × Q) => ((NArr.leaf p.1 : NArr Q), p.2)) ∘
+      fun p : List Nat × Q => (p.2, cellEdgesRef h1.edges.axes p.1)) =
+      fun p => (NArr.leaf p.2, cellEdgesRef h1.edges.axes p.1) := rfl
+  rw [hfun] at l1
+  obtain ⟨g, hg, hdim, _⟩ := graph_valid_naming cols' cs es s' hcs hc he hd l3.symm (sameLengths_of_all _ cols' l4)
+  refine ⟨h1, g, ?_, hdim⟩
+  unfold histToGraph
+  simp only [hmode, if_false, fieldNamesTuple, bind, Except.bind, hres, hit, l1, hg, pure, Except.pure]
+
+/-! ### CSV rows and the cells of `iter_bins` -/
+
+/-- without `duplicate_last_bin`, the CSV rows of a one-dimensional histogram are exactly one row per cell of
+`iter_bins`, in that order: the cell's lower edge and its content -/
+theorem csv_one_row_per_cell_1d (xs vals : List Q) (xLast : Q) (hlen : xs.length = vals.length) :
+    List.zipWith (fun x v => [x, v]) xs vals = (cells (bins1d vals)).map (cellRow [xs ++ [xLast]]) := by
+  rw [cells_bins1d, List.map_map]
+  have := rows1d_eq_cells xLast vals [] xs hlen
+  simpa [Function.comp_def] using this
+
+/-- without `duplicate_last_bin`, the CSV rows of a two-dimensional histogram are exactly one row per cell of
+`iter_bins`, in that order: the cell's lower `x` and `y` edges and its content -/
+theorem csv_one_row_per_cell_2d (xs ys : List Q) (xLast yLast : Q) (vals : List (List Q))
+    (hx : xs.length = vals.length) (hv : ∀ r ∈ vals, r.length = ys.length) :
+    (List.zipWith (rowsFor ys yLast false) xs vals).flatten =
+      (cells (bins2d vals)).map (cellRow [xs ++ [xLast], ys ++ [yLast]]) := by
+  have := rows2d_eq_cells ys xLast yLast vals [] xs hx hv
+  simpa [bins2d, cells] using this
 
 end Lena.C12
